@@ -49,7 +49,9 @@ RULE = ("scripts of 3-14 records (ids 0..; byte lengths 0..1.5*maxSize resp. 0..
         "scripted boundary date; every third case submits the records through the logx writer front-end instead "
         "(concreteWriter.Info on the RotateLogger as newFileWriter wires it, or NewWriter(rotateLogger); JSON and plain "
         "encodings) in bursts of 1-14 records while the writer goroutine is parked, and files are compared line by line with "
-        "the lines handed to RotateLogger.Write; every sixth case logs through the public logx functions "
+        "the lines handed to RotateLogger.Write; 2 of 15 cases hold every compress phase (gated global logx writer: the "
+        "compressor reports through logx before gzipping) until scripted points, so that later rotations and clean-ups "
+        "overlap the compression of earlier backups; every sixth case logs through the public logx functions "
         "(Info/Infof/Error/Errorf/Slow/Stat -> global writer) under the size rule (maxSize 6-300 kB), plain (75%) or JSON, "
         "records of 0-200 B, 4096/4097/5000/8192/12000/16384 B, 4-20 kB and 100 KiB, sequentially, in bursts and from "
         "2-4 goroutines at once; non-trivial = at least two rotations, or one rotation and a clean-up that removed a file; "
@@ -310,10 +312,36 @@ def _public(rng, tier):
     return c
 
 
+def _holdgz(rng, tier):
+    """compression with overlapping rotations: every compress phase is held (the compressor reports through logx
+    before gzipping; a gated global writer parks it there) until a "g" event, so later rotations, clean-ups and
+    other compress phases happen while earlier backups are still waiting to be compressed"""
+    force = {"gzip": True, "compress": True}
+    if rng.random() < 0.5:
+        force.update({"kind": "daily"})
+    c = _one(rng, tier, force)
+    c["holdgz"] = True
+    evs = []
+    for e in c["events"]:
+        evs.append(e)
+        if "w" in e and rng.random() < 0.2:
+            evs.append({"g": True})
+    c["events"] = evs
+    if rng.random() < 0.25:      # and sometimes a compression that fails among them
+        stamps = sorted(set([c["now0"]] + [e["w"][2] for e in c["events"] if "w" in e]))
+        have = {s["name"] for s in c["seeds"]}
+        name = _bname(c["kind"], c["file"], c["delim"], rng.choice(stamps)) + ".gz"
+        if name not in have:
+            c["seeds"].append({"name": name, "recs": [], "gz": 0, "kind": rng.choice(["dir", "devfull"])})
+    return c
+
+
 def generate(rng, tier, n):
     out = []
     for i in range(n):
-        if i % 6 == 5:
+        if i % 15 in (1, 7):
+            out.append(_holdgz(rng, tier))
+        elif i % 6 == 5:
             out.append(_public(rng, tier))
         elif i % 3 == 2:
             out.append(_front(rng, tier))
@@ -429,7 +457,9 @@ def encode(case, obs):
     evs = []
     restarts = [e["r"] for e in case["events"] if "r" in e]
     for e in obs["log"]:
-        if e.get("r"):
+        if e.get("g"):
+            evs.append("XGzip")
+        elif e.get("r"):
             r = restarts.pop(0)
             evs.append("XRestart %s %s" % (_nm(r[0]), _nm(r[1])))
         elif e.get("d") is not None:
@@ -441,7 +471,7 @@ def encode(case, obs):
         else:
             # more passes than records (the worker saw a record in pieces): an unknown record
             w = writes[e["w"]] if e["w"] < len(writes) else [998, 0, e.get("s") or case["now0"]]
-            evs.append("XWrite (mkrec %s %s) %s" % (cnat(w[0]), cZ(w[1]), _nm(w[2])))
+            evs.append("%s (mkrec %s %s) %s" % ("XWriteHold" if case.get("holdgz") else "XWrite", cnat(w[0]), cZ(w[1]), _nm(w[2])))
     final = clist([_file(f["name"], f["runs"], f["gz"]) for f in obs["final"]])
     return "mkcase %s %s %s %s %s %s %s %s" % (cfg, seeds, _nm(case["rot0"]), _nm(case["now0"]), clist(evs), final, setup, cbool(front_ok))
 
@@ -476,6 +506,16 @@ def bucket(case, obs):
         out.append("direct-write")
     if case.get("setup"):
         out.append("config-path:%s" % case["setup"]["rotation"])
+    if case.get("holdgz"):
+        # largest number of rotated backups waiting for their compress phase at the same time
+        waiting = most = 0
+        for l in obs.get("log", []):
+            if l.get("rot"):
+                waiting += 1
+            elif l.get("g"):
+                waiting -= 1
+            most = max(most, waiting)
+        out.append("held-compressions=%d" % min(most, 5))
     nr = sum(1 for e in case["events"] if "r" in e)
     if nr:
         out.append("lives=%d" % (nr + 1))
